@@ -104,6 +104,7 @@ fn dispatch(session: &mut Session, cmd: &J) -> Result<J, String> {
 		"ser_de" => op_ser_de(session, cmd),
 		"de_sum" => op_de_sum(session, cmd),
 		"writer" => crate::container::op_writer(session, cmd),
+		"write_all" => crate::container::op_write_all(session, cmd),
 		"walk" => crate::container::op_walk(cmd),
 		"assemble" => crate::container::op_assemble(cmd),
 		"reader" => crate::container::op_reader(cmd),
@@ -140,8 +141,28 @@ fn ser_with(schema: &'static Built, cmd: &J, session: &mut Session) -> Result<J,
 	if slow {
 		config.allow_slow_sequence_to_bytes();
 	}
+	// the public entry point used (all three are the same serializer behind): to_datum (default), to_datum_vec,
+	// SerializerState::with_owned_config + serializer() (an owned configuration: fresh configurations only)
+	let via = cmd.get("via").and_then(|v| v.as_str()).unwrap_or("to_datum");
+	if via == "owned" && cfg_name.is_none() && fail_after.is_none() {
+		let mut owned = SerializerConfig::new(&schema.schema);
+		if slow {
+			owned.allow_slow_sequence_to_bytes();
+		}
+		let mut state = serde_avro_fast::ser::SerializerState::with_owned_config(Vec::new(), owned);
+		let r = serde::Serialize::serialize(&pres, state.serializer());
+		let w = state.into_writer();
+		return Ok(match r {
+			Ok(()) => json!({"res": "ok", "bytes": bytes_json(&w)}),
+			Err(e) => json!({"res": "err", "msg": e.to_string()}),
+		});
+	}
 	#[allow(unused_mut)]
 	let mut out = match fail_after {
+		None if via == "to_datum_vec" => match serde_avro_fast::to_datum_vec(&pres, config) {
+			Ok(bytes) => json!({"res": "ok", "bytes": bytes_json(&bytes)}),
+			Err(e) => json!({"res": "err", "msg": e.to_string()}),
+		},
 		None => match serde_avro_fast::to_datum(&pres, Vec::new(), config) {
 			Ok(bytes) => json!({"res": "ok", "bytes": bytes_json(&bytes)}),
 			Err(e) => json!({"res": "err", "msg": e.to_string()}),
@@ -224,6 +245,7 @@ fn de_opts(cmd: &J) -> DeOpts {
 		},
 		hints: match cmd.get("hints").and_then(|m| m.as_str()) {
 			Some("alt") => "alt",
+			Some("alt2") => "alt2",
 			Some("any") => "any",
 			_ => "default",
 		},
